@@ -115,6 +115,13 @@ func sweep(part, parts int) {
 		{Kind: sp.OpClose, D: 2},
 		{Kind: sp.OpSMFAdd},
 	}
+	// value sweeps: every channel status, every meta type, track counts
+	for i, c := range sp.ValueSweeps() {
+		if i%parts == part {
+			runSweepCase(sweepCase{c.Cfg, c.Ops, c.Al, c.Name, c.Val})
+			ctx.Add("sweep_values", 1)
+		}
+	}
 	// all metric resolutions 1..32767
 	for r := 1 + part; r <= 32767; r += parts {
 		for _, nors := range []bool{false, true} {
